@@ -181,3 +181,102 @@ impl Drop for RefUdpServer {
         }
     }
 }
+
+// ------------------------------------------------------------------------------------------------ TCP reference peers
+
+use crate::gen::Det;
+use crate::refside::{self, ReqOpts, RespOpts};
+use std::io::{Read, Write};
+use std::net::{TcpListener, TcpStream};
+
+/// Reference client -> real server (plain tcp transport): one request carrying `up` for a scripted target that answers
+/// `down` and closes. Ok(()) iff the target saw exactly `up` and the reference decodes the server's response to `down`.
+pub fn ref_tcp_roundtrip(cred: &Cred, server_port: u16, up: &[u8], down: &[u8], deadline: Duration) -> Result<(), String> {
+    let tl = TcpListener::bind(SocketAddrV4::new(Ipv4Addr::LOCALHOST, 0)).map_err(|e| e.to_string())?;
+    let tport = tl.local_addr().map_err(|e| e.to_string())?.port();
+    tl.set_nonblocking(true).ok();
+    let mut d = Det::new(now_secs() ^ tport as u64, "ref-tcp");
+    let frames = refside::ref_client_request(cred, &Addr::V4([127, 0, 0, 1], tport), &[up.to_vec()], &ReqOpts::new(now_secs()), &mut d)?;
+    let mut s = TcpStream::connect_timeout(&SocketAddr::V4(SocketAddrV4::new(Ipv4Addr::LOCALHOST, server_port)), deadline).map_err(|e| format!("connect to the server: {}", e))?;
+    s.set_nodelay(true).ok();
+    s.write_all(&frames.wire).map_err(|e| format!("write request: {}", e))?;
+    let t0 = std::time::Instant::now();
+    let mut t = loop {
+        match tl.accept() {
+            Ok((t, _)) => break t,
+            Err(_) if t0.elapsed() < deadline => std::thread::sleep(Duration::from_millis(3)),
+            Err(_) => return Err(format!("the server did not dial the target within {:?} for a reference-built request", deadline)),
+        }
+    };
+    t.set_nonblocking(false).ok();
+    t.set_read_timeout(Some(deadline)).ok();
+    let mut got = vec![0u8; up.len()];
+    t.read_exact(&mut got).map_err(|e| format!("target read: {}", e))?;
+    if got != up {
+        return Err("the target received different bytes than the reference client sent".into());
+    }
+    t.write_all(down).map_err(|e| format!("target write: {}", e))?;
+    let _ = t.shutdown(std::net::Shutdown::Both);
+    s.set_read_timeout(Some(deadline)).ok();
+    let mut resp = vec![];
+    let mut buf = [0u8; 16384];
+    loop {
+        match s.read(&mut buf) {
+            Ok(0) => break,
+            Ok(n) => resp.extend_from_slice(&buf[..n]),
+            Err(e) => {
+                if resp.is_empty() {
+                    return Err(format!("no response from the server: {}", e));
+                }
+                break;
+            }
+        }
+    }
+    let dec = refside::ref_client_decode(cred, &frames.session, &resp, now_secs()).map_err(|e| format!("the reference cannot decode the server's response ({} bytes): {}", resp.len(), e))?;
+    if dec.payload != down {
+        return Err(format!("the reference decoded {} response bytes, the target wrote {}", dec.payload.len(), down.len()));
+    }
+    Ok(())
+}
+
+/// Reference server for the real client (plain tcp transport): accepts one connection, decodes the request with the
+/// reference, answers `down` with a reference-built response and closes. Returns (target address, payload) it decoded.
+pub fn ref_tcp_serve_once(cred: &Cred, listener: &TcpListener, want_payload: usize, down: &[u8], deadline: Duration) -> Result<(Addr, Vec<u8>), String> {
+    listener.set_nonblocking(true).ok();
+    let t0 = std::time::Instant::now();
+    let mut s = loop {
+        match listener.accept() {
+            Ok((s, _)) => break s,
+            Err(_) if t0.elapsed() < deadline => std::thread::sleep(Duration::from_millis(3)),
+            Err(_) => return Err(format!("the client did not connect to the reference server within {:?}", deadline)),
+        }
+    };
+    s.set_nonblocking(false).ok();
+    s.set_read_timeout(Some(Duration::from_millis(200))).ok();
+    let mut wire = vec![];
+    let mut buf = [0u8; 16384];
+    let mut last_err = String::from("nothing received");
+    while t0.elapsed() < deadline {
+        match s.read(&mut buf) {
+            Ok(0) => break,
+            Ok(n) => wire.extend_from_slice(&buf[..n]),
+            Err(_) => {}
+        }
+        if wire.is_empty() {
+            continue;
+        }
+        match refside::ref_server_decode(cred, &wire, now_secs()) {
+            Ok(d) if d.payload.len() >= want_payload => {
+                let mut det = Det::new(now_secs(), "ref-tcp-resp");
+                if let Ok(fr) = refside::ref_server_response(cred, &d.session, &[down.to_vec()], &RespOpts::new(now_secs()), &mut det) {
+                    let _ = s.write_all(&fr.wire);
+                }
+                let _ = s.shutdown(std::net::Shutdown::Both);
+                return Ok((d.addr, d.payload));
+            }
+            Ok(d) => last_err = format!("decoded only {} of {} payload bytes so far", d.payload.len(), want_payload),
+            Err(e) => last_err = e,
+        }
+    }
+    Err(format!("the reference server cannot decode what the client sent ({} bytes): {}", wire.len(), last_err))
+}
